@@ -74,6 +74,21 @@ def sat_loop(ob, name, make_constraints, rep, max_rounds=12):
         t = strip_marks(raw)
         err = parse_raises(t)
         ob.samples.append({"lemma": name, "model": t, "parse": err or "returns normally"})
+        if not err:
+            # the model is a member of the language difference but need not be the member on which the parser trips (what
+            # follows the offending character matters): try its one-character neighbours, each checked by running parse()
+            for i in range(1, len(t)):
+                for ins in ("%", "&", "!"):
+                    for cand in (t[:i] + ins + t[i:], t[:i] + ins + t[i + 1 :]):
+                        e2 = parse_raises(cand)
+                        if e2:
+                            t, err = cand, e2
+                            ob.samples.append({"lemma": name, "neighbour_of_model": cand, "parse": e2})
+                            break
+                    if err:
+                        break
+                if err:
+                    break
         if err:
             v = rep.violation("parse(" + repr(t) + ")", f"parse() raises {err}", {"doc": t})
             ob.__dict__.setdefault("_vs", []).append(v)
@@ -105,7 +120,12 @@ def regex_lemmas(rep: C.Report) -> None:
                 A = z3.Union(*[R.to_z3(t) for t in toks])
                 B = z3.Union(*[R.match_lang(p) for p, _ in pats])
                 ob1.conditions = 1
-                res = sat_loop(ob1, "tokenizer tag tokens within tag_fn patterns", lambda x: [z3.InRe(x, A), z3.Not(z3.InRe(x, B))], rep)
+                # first look for a witness whose tag name is an allowed HTML tag (tag_fn handles unknown names as text
+                # before it matches, so only such a witness can make parse() raise), then without that restriction
+                named = z3.Concat(z3.Re("<"), z3.Option(z3.Re("/")), z3.Union(z3.Re("span"), z3.Re("td"), z3.Re("div"), z3.Re("b")), z3.Option(z3.Concat(R._neg(R._in_word()), R.ANYSTAR)))
+                res = sat_loop(ob1, "tokenizer tag tokens within tag_fn patterns (allowed tag names)", lambda x: [z3.InRe(x, A), z3.Not(z3.InRe(x, B)), z3.InRe(x, R.well_placed_marks()), z3.InRe(x, named)], rep, max_rounds=6)
+                if res == "unsat":
+                    res = sat_loop(ob1, "tokenizer tag tokens within tag_fn patterns", lambda x: [z3.InRe(x, A), z3.Not(z3.InRe(x, B)), z3.InRe(x, R.well_placed_marks())], rep)
                 # after the inside-tag rewrite (newlines removed, quotes round-tripped) the same tokenizer pattern applies
                 if res == "unsat":
                     ob1.confirmed_conditions = 1
